@@ -129,6 +129,24 @@ func routingScenario(s *Sim, params map[string]string) {
 	// metadata snapshots delivered to the client (from the journal, at the end)
 	var moves []time.Duration
 	var lastEvent time.Duration // last instant the cluster changed
+	var resets []time.Duration  // Transport.CloseIdleConnections calls
+	if t.Intn("closeidle", 3) == 0 {
+		// the application lets go of the Transport's connections in the middle
+		// of the run (documented as allowing further use): the next request
+		// starts over with the bootstrap address and fresh metadata
+		for i := 0; i < t.Range("closeidle", 1, 2); i++ {
+			at := time.Duration(t.Range("closeidle", 200, 8000)) * time.Millisecond
+			s.After(at, "close-idle", func() {
+				s.Go("close-idle", func() {
+					resets = append(resets, s.Now())
+					tr.CloseIdleConnections()
+					resets = append(resets, s.Now())
+					lastEvent = s.Now()
+					s.Count("transport-CloseIdleConnections-mid-run")
+				})
+			})
+		}
+	}
 	readdressed := 0
 	nmoves := t.Range("cfg", 0, 5)
 	endAt := time.Duration(t.Range("cfg", 2, 12)) * time.Second
@@ -391,12 +409,27 @@ func routingScenario(s *Sim, params map[string]string) {
 		return closed
 	})
 	s.AtEnd(func() {
+		routingResets = resets
 		routingOracle(s, cl, ttl, n.MaxLatency, moves, downAt)
 		n.Shutdown()
 	})
 }
 
+// routingResets: the instants at which the run called
+// Transport.CloseIdleConnections (the Transport then starts over without
+// metadata: until it has some again, it falls back to its bootstrap address)
+var routingResets []time.Duration
+
 func routingOracle(s *Sim, cl *Cluster, ttl, maxLat time.Duration, moves, downAt []time.Duration) {
+	lastReset := func(at time.Duration) time.Duration {
+		lr := time.Duration(-1)
+		for _, x := range routingResets {
+			if x <= at && x > lr {
+				lr = x
+			}
+		}
+		return lr
+	}
 	// snapshots, in delivery order
 	var snaps []snapshot
 	coord := map[string][]struct {
@@ -493,7 +526,15 @@ func routingOracle(s *Sim, cl *Cluster, ttl, maxLat time.Duration, moves, downAt
 		if k != 18 && lo <= hi && r.Hdr.APIVersion != hi {
 			s.Fail("C12", "R2-version", "%s request to broker %d sent at v%d: library supports [%d,%d], broker advertised [%d,%d], highest common version is v%d", r.API.Name, b.ID, r.Hdr.APIVersion, lmin, lmax, br[0], br[1], hi)
 		}
-		// R1/R3: destination
+		// R1/R3: destination. (After a mid-run Transport.CloseIdleConnections
+		// the requests that were under way keep the connection pool they had
+		// taken alive, with its own metadata history and refresh cadence, next
+		// to the new one: the journal cannot tell which pool routed a request,
+		// so the destination rules stop at the first such call; the rules on
+		// results (R5-unreachable, R4-metadata-stale) go on.)
+		if len(routingResets) > 0 && r.At >= routingResets[0] {
+			continue
+		}
 		var want func(sn snapshot) (int32, bool)
 		var leaderOf func() *Partition
 		what := ""
@@ -566,7 +607,12 @@ func routingOracle(s *Sim, cl *Cluster, ttl, maxLat time.Duration, moves, downAt
 			// designates a broker: it falls back to its bootstrap address)
 			// (nor one whose request was routed, then dialled and handshaken,
 			// just before the first metadata arrived)
-			hadMetadata := len(snaps) > 0 && snaps[0].at <= r.At-6*maxLat-20*time.Millisecond
+			hadMetadata := false
+			for _, sn := range snaps {
+				if sn.at >= lastReset(r.At) && sn.at <= r.At-6*maxLat-20*time.Millisecond {
+					hadMetadata = true
+				}
+			}
 			// (a broker going down in that period may have taken the
 			// connection the metadata is refreshed over with it: the refresh is
 			// then late by a dial, a back-off and possibly a dial time-out)
@@ -598,7 +644,13 @@ func routingOracle(s *Sim, cl *Cluster, ttl, maxLat time.Duration, moves, downAt
 		if len(w) == 0 {
 			continue
 		}
-		if snaps[0].at > r.At-6*maxLat-20*time.Millisecond {
+		sinceReset := false
+		for _, sn := range snaps {
+			if sn.at >= lastReset(r.At) && sn.at <= r.At-6*maxLat-20*time.Millisecond {
+				sinceReset = true
+			}
+		}
+		if !sinceReset {
 			// the request may have been routed (then dialled, handshaken and
 			// sent) before the client had received any metadata at all: it
 			// falls back to a bootstrap address
